@@ -425,6 +425,25 @@ theorem caddy_transport_selection (rt : Nat → Option Nat) (d : Option Directiv
     provisionCaddyTransport rt (some .local_) none = .ok { kind := .local_ } ∧
     provisionCaddyTransport rt none none = provisionBoltBlock rt {} := ⟨rfl, rfl, rfl⟩
 
+/-- **The environment never overrides the configuration.** MERCURE_TRANSPORT_URL is consulted only when the block
+    names no transport at all; a `transport` directive or a `transport_url` is applied as written, whatever the
+    process environment holds. -/
+theorem env_never_overrides_configuration (rt : Nat → Option Nat) (d : Option Directive) (u : Option URL) (env : Option URL)
+    (h : d ≠ none ∨ u ≠ none) :
+    provisionCaddyTransportEnv rt d u env = provisionCaddyTransport rt d u := by
+  unfold provisionCaddyTransportEnv effectiveURL
+  cases u with
+  | some u => rfl
+  | none =>
+    cases d with
+    | some d => rfl
+    | none => simp at h
+
+/-- … and with no transport configured the variable stands in for `transport_url` (absent: the bolt module's
+    defaults, as before). -/
+theorem env_is_the_fallback (rt : Nat → Option Nat) (env : Option URL) :
+    provisionCaddyTransportEnv rt none none env = provisionCaddyTransport rt none env := rfl
+
 /-- Legacy options: a URL that is set decides; unset, the documented default bolt://updates.db (keep
     everything, cleanup frequency 0.3) when the defaults are loaded, the local transport otherwise. -/
 theorem legacy_transport_selection (u : URL) (d : Bool) :
@@ -465,5 +484,7 @@ end Mercure.C19
 #print axioms Mercure.C19.url_effective
 #print axioms Mercure.C19.url_invalid_rejected
 #print axioms Mercure.C19.caddy_transport_selection
+#print axioms Mercure.C19.env_never_overrides_configuration
+#print axioms Mercure.C19.env_is_the_fallback
 #print axioms Mercure.C19.parseUint64_examples
 #print axioms Mercure.C19.legacy_transport_selection
